@@ -72,7 +72,11 @@ def model_bench(name, phy="sdr_1_1", bankbits=1, rowbits=2, colbits=4, dfi_datab
     for k in ("act", "pre", "rd", "wr"):
         n = sum([d[k] for d in dec[1:]], dec[0][k])
         asm("at_most_one_%s_per_cycle" % k, n <= 1)
-    asm("no_refresh_mrs_zq_commands", ~monitors.any_([d["other"] for d in dec]))
+    # REFRESH / MODE REGISTER SET / ZQ calibration: legal only while every bank is precharged (checked against the reference bank
+    # state below) and, as the controller issues them, alone in their cycle; they touch neither data nor bank state
+    anyother = monitors.any_([d["other"] for d in dec])
+    asm("refresh_mrs_zq_alone_in_their_cycle",
+        ~(anyother & monitors.any_([d["act"] | d["pre"] | d["rd"] | d["wr"] for d in dec])))
     asm("not_read_and_write_in_one_cycle", ~(monitors.any_([d["rd"] for d in dec]) & monitors.any_([d["wr"] for d in dec])))
     # ---- reference bank state ---------------------------------------------------------------------
     opn = [Signal() for _ in range(nb)]
@@ -110,6 +114,10 @@ def model_bench(name, phy="sdr_1_1", bankbits=1, rowbits=2, colbits=4, dfi_datab
         per_bank_cmds.append(n <= 1)
     asm("one_command_per_bank_per_cycle", monitors.all_(per_bank_cmds))
     asm("trace_is_legal_for_the_reference_dram", monitors.all_(legal))
+    asm("refresh_mrs_zq_only_with_all_banks_precharged_and_no_write_pending",
+        ~anyother | monitors.all_([(opn[b] == 0) & (wrec[b] == 0) for b in range(nb)]))
+    oseen = monitors.Sticky(anyother)
+    top.submodules += oseen
     # rows as seen by a CAS in this cycle (bank state before this cycle's commands: one command per bank per cycle)
     # ---- watched byte -----------------------------------------------------------------------------
     WB = Signal(max=max(nb, 2), name_override="WBANK")
@@ -164,6 +172,9 @@ def model_bench(name, phy="sdr_1_1", bankbits=1, rowbits=2, colbits=4, dfi_datab
     top.submodules += s
     top.comb += c.eq(exp_hit & s.out & (exp_val != 0))
     covers["watched_byte_read_back_after_write"] = c
+    c4 = Signal()
+    top.comb += c4.eq(exp_hit & s.out & oseen.out)
+    covers["watched_byte_read_after_a_refresh_or_mode_register_command"] = c4
     apseen = monitors.Sticky(monitors.any_([(d["rd"] | d["wr"]) & d["ph"].address[10] for d in dec]))
     top.submodules += apseen
     c3 = Signal()
@@ -292,7 +303,7 @@ def run(ctx):
                "command per bank per cycle, no PRE/RD/ACT of a bank while a write's data phase is pending (write_latency+1 cycles)")
     ctx.assume("a read or write with A10=1 auto-precharges its bank in the reference (a later ACT without PRE is legal)")
     ctx.assume("tiny geometry (2-4 banks, 4 rows, 16 columns; address bus kept at 11 bits for A10), read pipeline shortened; "
-               "trace benches start from zeroed memory; refresh/MRS/ZQ commands excluded")
+               "trace benches start from zeroed memory; refresh/MRS/ZQ commands allowed while all banks are precharged (no-ops for data)")
     ctx.assume("init-image clause: the real __prepare_bank_init_data is executed on injective images (several sizes incl. partial "
                "and multi-bank); the layout query quantifies over every word address of the small memory")
     for n, (kw, kq, kt, tiers) in CONFIGS.items():
